@@ -268,8 +268,15 @@ def run(ctx: Ctx) -> None:
     ctx.ob("C15.RANGE", FZP, stores[0] if stores else f, f"min range = {vmin[:70]} ; max range = {vmax[:70]}", okst, expected="nanmin(window) - marge for the min, nanmax(window) + marge for the max, over the window axes (2, 3)", detail="the interval searched at the finer level is [min - marge, max + marge] of the valid coarse disparities in the window")
     inv = [s for s in walk_no_nested(f) if isinstance(s, ast.Assign) and isinstance(s.targets[0], ast.Subscript) and canon(s.targets[0].slice) == "invalid_ind"]
     gi = {canon(s.targets[0].value): canon(s.value) for s in inv}
-    oki = gi == {"disp_min_range": f"int(np.nanmin({dmn}))", "disp_max_range": f"int(np.nanmax({dmx}))"}
-    ctx.ob("C15.RANGE", FZP, inv[0] if inv else f, f"invalid pixels get {gi}", oki, expected=f"the whole user interval (int(nanmin({dmn})), int(nanmax({dmx})))", detail="invalid or border coarse pixels must search the whole user interval of the level")
+    # the whole interval of the level, *not truncated*: at a coarse level the user bounds are fractions (user / factor**k)
+    # and int() rounds them toward zero, so after the multiplication by the factor the finer level misses up to
+    # factor - 1 disparities at the end of the interval
+    whole = ({"disp_min_range": f"float(np.nanmin({dmn}))", "disp_max_range": f"float(np.nanmax({dmx}))"}, {"disp_min_range": f"np.nanmin({dmn})", "disp_max_range": f"np.nanmax({dmx})"})
+    oki = gi in whole
+    ctx.ob("C15.RANGE", FZP, inv[0] if inv else f, f"invalid pixels get {gi}", oki, expected=f"the whole interval of the level, untruncated: (float(np.nanmin({dmn})), float(np.nanmax({dmx})))", detail="invalid or border coarse pixels must search the whole user interval of the level; `int(...)` truncates a fractional coarse bound toward zero (user [-5, 1] with factor 2 becomes [-4, 0] at the finer level)")
+    zm = [c for c in calls_in(f) if (dotted(c.func) or "").split(".")[-1] == "zoom"]
+    okz = len(zm) == 2 and all(canon(kwarg(c, "order")) == "0" and canon(kwarg(c, "mode")) == "'nearest'" and canon(c.args[1]) == "self._scale_factor" for c in zm)
+    ctx.ob("C15.RANGE", FZP, zm[0] if zm else f, f"range maps up-sampled by {src(zm[0])[:80] if zm else '?'}", okz, expected="zoom(map, self._scale_factor, order=0, mode='nearest')", detail="order-0 replication of each coarse pixel; with scipy's default mode='constant' (cval=0) the last output sample can fall just outside the array for factors that are not powers of two and the last row / column of the grids becomes [0, 0]")
     ii = d.all_defs("invalid_ind")
     okii = bool(ii) and canon(ii[0][1]) == "np.where(np.isnan(tmp_disp_map))"
     ctx.ob("C15.RANGE", FZP, ii[0][0] if ii else f, f"invalid_ind = {canon(ii[0][1]) if ii else '?'}", okii, expected="np.where(np.isnan(tmp_disp_map))")
@@ -334,15 +341,17 @@ SPEC = PropSpec(
 )
 
 MUTANTS = [
-    {"id": "range-maps-integer-typed", "file": FZP, "old": '        disp_min_range = np.full_like(disp["disparity_map"].data, int(np.nanmin(disp_min)))\n', "new": '        disp_min_range = np.full((ncol, nrow), int(np.nanmin(disp_min)))\n'},
-    {"id": "eq-range-maps-explicit-float32", "kind": "equiv", "file": FZP, "old": '        disp_min_range = np.full_like(disp["disparity_map"].data, int(np.nanmin(disp_min)))\n', "new": '        disp_min_range = np.full((ncol, nrow), int(np.nanmin(disp_min)), dtype=np.float32)\n'},
+    {"id": "whole-interval-truncated-toward-zero", "file": FZP, "old": "        disp_min_range[invalid_ind] = float(np.nanmin(disp_min))\n", "new": "        disp_min_range[invalid_ind] = int(np.nanmin(disp_min))\n"},
+    {"id": "zoom-default-constant-mode", "file": FZP, "old": 'disp_max_range = zoom(disp_max_range, self._scale_factor, order=0, mode="nearest")', "new": "disp_max_range = zoom(disp_max_range, self._scale_factor, order=0)"},
+    {"id": "range-maps-integer-typed", "file": FZP, "old": '        disp_min_range = np.full_like(disp["disparity_map"].data, float(np.nanmin(disp_min)))\n', "new": '        disp_min_range = np.full((ncol, nrow), int(np.nanmin(disp_min)))\n'},
+    {"id": "eq-range-maps-explicit-float32", "kind": "equiv", "file": FZP, "old": '        disp_min_range = np.full_like(disp["disparity_map"].data, float(np.nanmin(disp_min)))\n', "new": '        disp_min_range = np.full((ncol, nrow), float(np.nanmin(disp_min)), dtype=np.float32)\n'},
     {"id": "multiscale-looked-up-by-bare-name", "file": "pandora/check_configuration.py", "old": '    multiscale_steps = [step for step in cfg["pipeline"] if step.split(".")[0] == "multiscale"]\n    if multiscale_steps:\n', "new": '    multiscale_steps = ["multiscale"] if "multiscale" in cfg["pipeline"] else []\n    if multiscale_steps:\n'},
     {"id": "multiscale-selected-at-top-level", "file": "pandora/check_configuration.py", "old": '    multiscale_steps = [step for step in cfg["pipeline"] if step.split(".")[0] == "multiscale"]\n', "new": '    multiscale_steps = [step for step in cfg if step.split(".")[0] == "multiscale"]\n'},
     {"id": "drop-reverse", "file": IMG, "old": "return pyramid_left[::-1], pyramid_right[::-1]", "new": "return pyramid_left, pyramid_right"},
     {"id": "exponent-minus-one", "file": SM, "old": 'self.disp_min = left_img["disparity"].sel(band_disp="min") / (self.scale_factor**self.num_scales)', "new": 'self.disp_min = left_img["disparity"].sel(band_disp="min") / (self.scale_factor ** (self.num_scales - 1))'},
     {"id": "floor-division", "file": SM, "old": 'self.disp_max = left_img["disparity"].sel(band_disp="max") / (self.scale_factor**self.num_scales)', "new": 'self.disp_max = left_img["disparity"].sel(band_disp="max") // (self.scale_factor**self.num_scales)'},
     {"id": "in-place-scaling", "file": SM, "old": "        self.disp_min = self.disp_min * self.scale_factor\n", "new": "        self.disp_min *= self.scale_factor\n"},
-    {"id": "zoom-order-1", "file": FZP, "old": "disp_min_range = zoom(disp_min_range, self._scale_factor, order=0)", "new": "disp_min_range = zoom(disp_min_range, self._scale_factor, order=1)"},
+    {"id": "zoom-order-1", "file": FZP, "old": 'disp_min_range = zoom(disp_min_range, self._scale_factor, order=0, mode="nearest")', "new": 'disp_min_range = zoom(disp_min_range, self._scale_factor, order=1, mode="nearest")'},
     {"id": "marge-plus-on-both", "file": FZP, "old": "np.nanmin(disp_chunked_x[row], axis=(2, 3)) - self._marge", "new": "np.nanmin(disp_chunked_x[row], axis=(2, 3)) + self._marge"},
     {"id": "pyramid-args-swapped", "file": SM, "old": "left_img, right_img, self.num_scales, scale_factor\n", "new": "left_img, right_img, scale_factor, self.num_scales\n"},
     {"id": "drop-copy-fill-nodata", "file": IMG, "old": '            img = dataset["im"].data.copy()\n            msk = dataset["msk"].data.copy()', "new": '            img = dataset["im"].data\n            msk = dataset["msk"].data'},
